@@ -121,6 +121,15 @@ def both(value, k, bg=None):
 def events(t, rnd):
     _init()
     evs = []
+    # history: before anything else, translucent colours over backgrounds that are NOT colours (refused, as they must be) - a refusal
+    # must leave nothing behind for the thousands of composites that follow
+    for bad_bg in ("notacolour", "rgb(1,2", (300, 0, 0), "", "hsl(", None):
+        for txt0 in ("rgba(255, 0, 0, 0.5)", (10, 20, 30, 0.5), "hsla(120, 50%, 50%, 0.5)"):
+            try:
+                _P(txt0, bad_bg) if bad_bg is not None else _P(txt0)
+            except Exception:
+                pass
+            via_color(txt0, bad_bg) if isinstance(bad_bg, str) and bad_bg else None
     # ---- three-digit hex: all 4096 x rotating case / '#' variants
     n = 0
     for d1 in range(16):
@@ -166,6 +175,8 @@ def events(t, rnd):
             return str(x).zfill(rnd.choice([4, 5, 8]))
         if j % 11 == 7:
             return "+" + str(x).zfill(rnd.choice([3, 4]))
+        if j % 997 == 5:
+            return str(x).zfill(rnd.choice([4300, 4301, 5000, 20000]))       # thousands of leading zeros are still that number
         return str(x)
     for c in triples:
         txt = fn_variant("rgb", [zpad(x, n + q) for q, x in enumerate(c)], n)
